@@ -5,8 +5,8 @@ package filters
 // every width, converted by the real call layer.
 
 import (
-	"strconv"
 	"math"
+	"strconv"
 
 	nd "github.com/osteele/liquid/zz_verifnd"
 )
@@ -85,7 +85,13 @@ func c17AsInt64(d any) (int64, bool) {
 func VerifC17Arith() {
 	var a, b any
 	var fa, fb float64
-	switch nd.Choice(3) {
+	switch nd.Choice(4) {
+	case 3: // a float32 operand is exactly the float64 with the same value
+		f32 := nd.Float32()
+		nd.Assume(f32 == f32 && f32-f32 == 0)
+		a, fa = f32, float64(f32)
+		fb = c17Finite()
+		b = fb
 	case 0:
 		fa, fb = c17Finite(), c17Finite()
 		a, b = fa, fb
